@@ -229,8 +229,8 @@ def case_hkl(ctx, p):
     seeded("genhkl_all", (cell, smin, smax), dict(sgno=p["no"], cell_choice=p["cc"], output_stl=bool(p["s"] % 2)))
     seeded("genhkl_unique", (cell, smin, smax), dict(sgname=o.name, output_stl=bool(p["s"] % 5 < 3)))
     seeded("genhkl_base", (cell, o.syscond, smin, smax), dict(crystal_system=o.crystal_system, Laue_class=o.Laue,
-                                                             cell_choice=o.cell_choice, output_stl=True))
-    seeded("genhkl", (cell, o.syscond, smin, smax), dict(crystal_system=o.crystal_system, output_stl=True))
+                                                             cell_choice=o.cell_choice, output_stl=True if p["s"] % 3 else None))
+    seeded("genhkl", (cell, o.syscond, smin, smax), dict(crystal_system=o.crystal_system, output_stl=None if p["s"] % 3 else True))
     for h in [gen.hkl(rng, 6) for _ in range(6)]:
         pair(ctx, "sysabs", (h, o.syscond, o.crystal_system, o.cell_choice), (h, o.syscond, o.crystal_system, o.cell_choice))
 
